@@ -696,6 +696,19 @@ def op_pairs(case, o):
     return out
 
 
+def op_wcolsum_rep(case, o):
+    """column totals of n copies of one row (a tall array in compressed form)"""
+    dt, row, n = case[1], case[2], int(case[3])
+    vals = _enc.dec_seq(row, dt)
+    a = RaggedArray(np.tile(vals, n), np.full(n, len(vals), dtype=np.int64), dtype=_enc.DT2NP[dt])
+    r = np.asarray(a.sum(axis=0) if o.get("how", "method") == "method" else np.sum(a, axis=0))
+    if r.dtype.kind == "f":
+        if not np.all(np.isfinite(r)):
+            return ["raised", "NonFiniteSum"]
+        return ["flat", "i8" if dt[0] == "i" else "u8", [_enc.limbs(int(x)) for x in r.tolist()]]
+    return ["flat", dt_of(r.dtype), [_enc.limbs(int(x)) for x in r.tolist()]]
+
+
 def op_wreduce(case, o):
     name, arr = case[1], case[2]
     a = build(arr, o.get("via", "flat"))
@@ -721,7 +734,7 @@ def op_wreduce(case, o):
     return out if same_snap(snap, snapshot(a)) else ["mutated", "operand changed"]
 
 
-OPS = {"wreduce": op_wreduce, "getpairs": op_pairs, "setpairs": op_pairs, "readback": op_readback, "getitem": op_getitem, "setitem": op_setitem, "ufunc": op_ufunc, "reduce": op_reduce,
+OPS = {"wcolsum_rep": op_wcolsum_rep, "wreduce": op_wreduce, "getpairs": op_pairs, "setpairs": op_pairs, "readback": op_readback, "getitem": op_getitem, "setitem": op_setitem, "ufunc": op_ufunc, "reduce": op_reduce,
        "scan": op_scan, "concat": op_concat, "like": op_like, "pad": op_pad, "nonzero": op_nonzero, "where": op_where,
        "subset": op_subset, "ragged_slice": op_ragged_slice, "col": op_col}
 
